@@ -257,6 +257,8 @@ func init() {
 					switch {
 					case lf != nil && lf.Name() == "acked":
 					case isLoopOrLookupCond(c, f.Cond):
+					case isErrNilTest(f.Cond):
+						// a validation step that failed returns an error before anything is counted: not a per-chunk condition
 					default:
 						extra = append(extra, fmt.Sprintf("%s=%v", shortValue(c.P, f.Cond), f.Taken))
 					}
@@ -623,4 +625,13 @@ func binOpsInSlice(v ssa.Value, op token.Token, d int) []*ssa.BinOp {
 		}
 	}
 	return nil
+}
+
+// isErrNilTest: the condition compares an error value with nil.
+func isErrNilTest(v ssa.Value) bool {
+	b, ok := v.(*ssa.BinOp)
+	if !ok || (b.Op != token.EQL && b.Op != token.NEQ) {
+		return false
+	}
+	return (isNilConst(b.Y) && b.X.Type().String() == "error") || (isNilConst(b.X) && b.Y.Type().String() == "error")
 }
